@@ -29,8 +29,11 @@ def gen_instance(rng, tier, kind=None):
         ds = [rng.uniform(-100, 100) for _ in range(n)]
     else:
         ds = [rng.choice([0, 7, 9, 10]) for _ in range(n)]
-    wstyle = rng.choice(["one", "mixed", "extreme"])
-    ws = [1 if wstyle == "one" else (10 ** rng.uniform(-2, 10) if wstyle == "mixed" else rng.choice([1, 10, 1e10, 1e-2])) for _ in range(n)]
+    wstyle = rng.choice(["one", "mixed", "extreme", "heavy-few"])
+    ws = [1 if wstyle in ("one", "heavy-few") else (10 ** rng.uniform(-2, 10) if wstyle == "mixed" else rng.choice([1, 10, 1e10, 1e-2])) for _ in range(n)]
+    if wstyle == "heavy-few":       # one or two stiff variables among unit weights (what removeOverlap's walls look like, on a general graph)
+        for i in rng.sample(range(n), min(n, rng.choice([1, 1, 2]))):
+            ws[i] = rng.choice([1e10, 1e10, 1e6, 1e3])
     ss = [1 if rng.random() < 0.7 else rng.choice([0.5, 1, 2, 4]) for _ in range(n)]
     if rng.random() < 0.6:
         ss = [1] * n
@@ -77,6 +80,32 @@ def run_float(inst):
     finally:
         signal.alarm(0)
     return [v.position() for v in vs], cost, [i for i, c in enumerate(cs) if c.unsatisfiable]
+
+
+def run_exact_plain(inst):
+    """the real solver, unmodified control flow, on Fractions (only `dfdv`'s float literal 2.0 is replaced by 2): positions, returned
+    cost, flagged constraints — compared for EQUALITY with the transliteration Model/Vpsc.lean"""
+    vpsc, vs, cs = build(inst, True)
+    orig_dfdv = vpsc.Variable.dfdv
+    vpsc.Variable.dfdv = lambda self: 2 * self.weight * (self.position() - self.desiredPosition)
+    try:
+        solver = vpsc.Solver(vs, cs)
+        signal.signal(signal.SIGALRM, _alarm)
+        signal.alarm(20)
+        try:
+            cost = solver.solve()
+        finally:
+            signal.alarm(0)
+        return [v.position() for v in vs], cost, [i for i, c in enumerate(cs) if c.unsatisfiable]
+    finally:
+        vpsc.Variable.dfdv = orig_dfdv
+
+
+def vpsc_line(inst, x, cost, unsat):
+    return "vpsc|%s|%s|%s|%s|%s" % (
+        ";".join("%s:%s:%s" % (fr(d), fr(w), fr(s)) for d, w, s in zip(inst["d"], inst["w"], inst["s"])),
+        ";".join("%d:%d:%s" % (l, r, fr(g)) for l, r, g in inst["cs"]),
+        ",".join(fr(v) for v in x), fr(cost), ",".join(map(str, unsat)))
 
 
 def run_exact_hint(inst):
@@ -153,6 +182,16 @@ def one_case(inst, rep):
     if meta["premature"]:
         # did the float run stop at the same place as the exact run before the extra passes?
         meta["float_equals_exact_before"] = all(abs(float(a) - b) <= 1e-6 for a, b in zip(before, x))
+    # exact-mode correspondence with the transliterated solver (every kind of instance, cyclic ones included)
+    meta["vpsc_line"] = None
+    if len(inst["d"]) <= 40:
+        try:
+            ex, ecost, eunsat = run_exact_plain(inst)
+            meta["vpsc_line"] = vpsc_line(inst, ex, ecost, eunsat)
+        except (Timeout, RecursionError):
+            rep.count("exact-run-timeout")
+        except ZeroDivisionError:
+            rep.count("exact-run-zerodivision")
     return qp_line(inst, x, cost, xs, lam, unsat), meta
 
 
@@ -170,6 +209,16 @@ def body(tier, seed, rep, only_prop=False, scale=1):
         if r:
             cs.append(r)
     answers = drive([c[0] for c in cs])
+    vl = [(c[1].pop("vpsc_line"), c[1]) for c in cs]
+    vl = [(l, m) for l, m in vl if l]
+    for (line, meta), ans in zip(vl, drive([l for l, _ in vl])):
+        f = fields(ans)
+        rep.count("vpsc-model same=" + f["same"])
+        payload = {"case": meta, "driver_line": line[:6000], "driver_answer": ans}
+        if f["feasible"] == "fail":
+            rep.model_fail = True
+        if f["same"] == "fail" and not only_prop:
+            rep.corr_fail.append(("vpsc.Solver.solve in exact arithmetic differs from its transliteration Model/Vpsc.lean (positions, returned cost or flagged constraints): " + ans, payload))
     for (line, meta), ans in zip(cs, answers):
         f = fields(ans)
         payload = {"case": meta, "driver_line": line[:6000], "driver_answer": ans}
@@ -207,7 +256,10 @@ def run(pid, tier, seed, replay=None):
         bad = "fail" in ans
         print("VIOLATION property=%s replay=%s" % (pid, replay) if bad else "replay: holds now")
         return 1 if bad else 0
+    rep.model_fail = False
     body(tier, seed, rep)
+    if rep.model_fail:
+        st["broken"].append("model-prop-fail: the transliterated solver's own result violates a constraint it has not flagged (theorem satisfy_feasible)")
 
     def search():
         before = len(rep.prop_fail)
